@@ -229,7 +229,7 @@ def _bool_frame_problem(res, exp, what):
 
 # ------------------------------------------------------------------------------------------------ frames x frames
 
-COLSETS = [['a', 'b'], ['b', 'c'], ['a', 'b']]
+COLSETS = [['a', 'b'], ['b', 'c'], ['a', 'b'], ['b', 'a']]          # the last: the same labels stored in the other order
 NEUTRAL = dict(add=0.0, sub=0.0, mul=1.0, div=1.0)
 
 
@@ -241,7 +241,7 @@ def frame_model(desc, k, cols):
 def check_frames(case):
     out = Out()
     fa = frame_model(case['a'], 0, COLSETS[0])
-    for second in (1, 2):
+    for second in (1, 2, 3):
         fb = frame_model(case['b'], 1, COLSETS[second])
         desc = 'A=%s B=%s' % (fa, fb)
         for how in ('ij', 'oj'):
@@ -253,7 +253,7 @@ def check_frames(case):
                     if op in ('min', 'max') and second == 1:
                         continue
                     out.sub()
-                    sig = dict(op=op, how=how, columns=colpol, samecols=(second == 2))
+                    sig = dict(op=op, how=how, columns=colpol, samecols=(second == 2), reordered=(second == 3))
                     A, B = tm.build_frame(fa), tm.build_frame(fb)
                     try:
                         res = opfun(op)(A, B, join=how, columns=colpol)
@@ -346,6 +346,14 @@ def check_lists(case):
                 p = result_problem(res, expect_series(op, models, how), '%s_(list of %s, join=%s)' % (op, desc, how))
                 if p:
                     out.viol('wrong-value', p, form='list', **sig)
+                ss = fresh()
+                head, tail = ss[:-1], ss[-1]
+                r_a = opfun(op)(head, tail, join=how)            # a list on the left plus one more operand on the right
+                r_b = opfun(op)(head, tail, join=how)            # the SAME list object again: it must not have been extended by the first call
+                out.call(2)
+                if len(head) != k - 1 or not _same(res, r_a) or not _same(r_a, r_b):
+                    out.viol('operand-list-changed', '%s_([a, b..], z) twice with one list object (%s, join=%s): the list now holds %d operands, results %s / %s' % (
+                        op, desc, how, len(head), list(getattr(r_a, 'values', [r_a])), list(getattr(r_b, 'values', [r_b]))), **sig)
                 ss = fresh()
                 res2 = opfun(op)(ss[0], ss[1:], join=how)
                 out.call()
